@@ -43,8 +43,13 @@ def readiness_cases(ctx):
     dist = {}
     for (join, thr, fired, act) in configs:
         for ups in ups_lists:
-            for bypass in ((False, True) if len(ups) <= 1 else (False,)):
+            for bypass, noise in ([(False, False), (True, False)] if len(ups) <= 1 else [(False, False), (False, True)]):
                 stage = StageExecution(id="S", ref_id="s", join_type=JoinType[join], join_threshold=thr)
+                if noise:
+                    # bookkeeping the handlers keep in the join's context but the verdict must not depend on: the
+                    # branch tracking is written in its own commit BEFORE the branch's completion is durable
+                    stage.context["_completed_branches"] = [f"u{i}" for i in range(len(ups))]
+                    stage.context["_jump_count"] = 1
                 if fired:
                     stage.context["_join_fired"] = True
                 if act is not None:
@@ -58,7 +63,7 @@ def readiness_cases(ctx):
                     "J_" + join, thr, cq_bool(fired), cq_opt(act, lambda a: cq_list([f"{x}%nat" for x in a])),
                     cq_list([f"({i}%nat, {sts[k].name})" for i, k in enumerate(ups)]), cq_bool(bypass),
                     PHASES[r.phase.value], cq_list([f"{x}%nat" for x in failed]), cq_list([f"{x}%nat" for x in active]), cq_bool(waits)))
-                raw.append({"join": join, "threshold": thr, "fired": fired, "activated": act, "bypass": bypass,
+                raw.append({"join": join, "threshold": thr, "fired": fired, "activated": act, "bypass": bypass, "noise": noise,
                             "upstream": [sts[k].name for k in ups], "impl": {"phase": r.phase.value, "failed": failed, "active": active, "waits": waits}})
                 dist[join] = dist.get(join, 0) + 1
     return cases, raw, dist
@@ -106,6 +111,9 @@ def replay(obj) -> bool:
         from stabilize.models.stage import JoinType, StageExecution
         from stabilize.models.status import WorkflowStatus
         stage = StageExecution(id="S", ref_id="s", join_type=JoinType[r["join"]], join_threshold=r["threshold"])
+        if r.get("noise"):
+            stage.context["_completed_branches"] = [f"u{i}" for i in range(len(r["upstream"]))]
+            stage.context["_jump_count"] = 1
         if r["fired"]:
             stage.context["_join_fired"] = True
         if r["activated"] is not None:
